@@ -423,3 +423,218 @@ Theorem C10_dmrg2_whole_run_lapack_example : forall lam A qD ens tr,
   (ens <> [] -> last ens (k0 CQ) = denergy 2 L A (o_A ex3H)).
 Proof. exact dmrg2_run_lapack_example. Qed.
 Print Assumptions C10_dmrg2_whole_run_lapack_example.
+
+(* ---------------------------------------------------------------------------------------------------------------
+   REPAIRED LOCAL EIGENSOLVER.  pytenet/minimization.py after "fix: limit Lanczos iterations in local energy minimization to
+   the dimension of the local problem":
+
+       def _minimize_local_energy(L, R, W, Astart, numiter: int):
+           # the Krylov subspace cannot exceed the dimension of the local problem
+           # (additional Lanczos iterations would only amplify rounding noise)
+           numiter = min(numiter, Astart.size)
+           w, u_ritz = eigh_krylov(
+               lambda x: apply_local_hamiltonian(L, R, W, x.reshape(Astart.shape)).reshape(-1),
+                   Astart.reshape(-1), numiter, 1)
+           Aopt = u_ritz[:, 0].reshape(Astart.shape)
+           return w[0], Aopt
+
+   used by calculate_ground_state_local_singlesite (Astart = psi.A[i], size d*Dl*Dr) and calculate_ground_state_local_twosite
+   (Astart = merge_mps_tensor_pair(psi.A[i], psi.A[i+1]), size d*d*Dl*Dr).  Model (Proofs/LinkSolversCap.v):
+
+       site_size A                      := length A * sdl A * sdr A                        (Astart.size; a site is a list of d matrices Dl x Dr,
+                                                                                            the merged tensor a list of d*d matrices)
+       keig_lanczos_cap ... numiter ... A := keig_lanczos ... (Nat.min numiter (site_size A)) ... A
+       keig_lanczos_cap_calls_ok          := keig_lanczos_calls_ok with the capped count   (contracts of norm / eigh_tridiagonal on the
+                                                                                            calls the CAPPED Lanczos run issues)
+       lrtr_cap_ok / lrtr2_cap_ok         := lrtr_ok / lrtr2_ok with keig_lanczos_cap_calls_ok on the EIG / EIG2 entries.
+
+   The theorems above about keig_lanczos (no cap: the code before the repair) remain true and are kept.  The theorems below
+   re-establish them for the repaired solver (Proofs/LinkRunDMRGCap.v: the lock-step inductions redone generically in the solver).
+   Zero-size start tensors: the cap is 0, the code raises in lanczos_iteration (assert nrmv > 0), the model returns its error
+   value; no positivity hypothesis on Dl, Dr is needed because the hypothesis "start tensor not zero" (along a run: norm one)
+   forces d*Dl*Dr >= 1, hence 1 <= min(numiter, size) whenever 1 <= numiter. *)
+From PT Require Import Proofs.LinkSolversCap Proofs.LinkRunDMRGCap Proofs.LinkCapExamples.
+
+(* ONE call of the repaired _minimize_local_energy meets the Ritz contract keig_ok; hypotheses as in C10_keig_from_krylov, the
+   primitives' contracts on the calls of the capped run *)
+Theorem C10_keig_cap_from_krylov : forall (F : ofield) dnorm small deigh numiter,
+  small_sound F small -> (1 <= numiter)%nat ->
+  forall d Dl Dr Dwl Dwr pos (BL BR : env (Cx F)) (W : osite (Cx F)) (A : site (Cx F)),
+  (0 < d)%nat -> (0 < Dwl)%nat -> (0 < Dwr)%nat ->
+  osite_ok d Dwl Dwr W -> env_ok Dwl Dl Dl BL -> env_ok Dwr Dr Dr BR -> site_ok d Dl Dr A ->
+  local_sa F d Dl Dr (apply_local_hamiltonian BL BR W) ->
+  site_dot A A <> k0 (Cx F) ->
+  keig_lanczos_cap_calls_ok F dnorm small deigh numiter BL BR W A ->
+  keig_ok d BL BR W A (keig_lanczos_cap F dnorm small deigh numiter pos BL BR W A).
+Proof. exact keig_cap_from_krylov. Qed.
+Print Assumptions C10_keig_cap_from_krylov.
+
+(* the cap is well defined on every non-zero tensor of consistent shape: Astart.size = d*Dl*Dr >= 1 *)
+Theorem C10_nonzero_tensor_has_entries : forall (F : ofield) d Dl Dr (A : site (Cx F)),
+  (0 < d)%nat -> site_ok d Dl Dr A -> site_dot A A <> k0 (Cx F) -> site_size A = (d * Dl * Dr)%nat /\ (1 <= site_size A)%nat.
+Proof. intros F d Dl Dr A Hd HA Hnz. split; [exact (site_size_ok F d Dl Dr A Hd HA)|exact (site_size_pos F d Dl Dr A Hd HA Hnz)]. Qed.
+Print Assumptions C10_nonzero_tensor_has_entries.
+
+(* where the cap does not bite the repaired solver IS the old one *)
+Theorem C10_keig_cap_is_keig_when_small : forall (F : ofield) dnorm small deigh numiter pos (BL BR : env (Cx F)) (W : osite (Cx F)) (A : site (Cx F)),
+  (numiter <= site_size A)%nat ->
+  keig_lanczos_cap F dnorm small deigh numiter pos BL BR W A = keig_lanczos F dnorm small deigh numiter pos BL BR W A.
+Proof. exact keig_lanczos_cap_nocap. Qed.
+Print Assumptions C10_keig_cap_is_keig_when_small.
+
+Theorem C10_dmrg1_lapack_to_ritz_cap : forall (F : ofield) orth qr dnorm small deigh numiter (H : mpo (Cx F)) psi n d DsW Ds0 A qD ens tr,
+  dmrg_singlesite orth qr (keig_lanczos_cap F dnorm small deigh numiter) H psi n = Some (A, qD, ens, tr) ->
+  mpo_shapeb d DsW (o_A H) = true -> mps_shapeb d Ds0 (m_A (fst (orth psi))) = true ->
+  Forall right_iso (m_A (fst (orth psi))) -> (2 <= length (o_A H))%nat ->
+  mpo_herm F (o_A H) d -> small_sound F small -> (1 <= numiter)%nat ->
+  lrtr_cap_ok qr dnorm small deigh numiter (o_A H) (rev tr) ->
+  rtr_ok qr (keig_lanczos_cap F dnorm small deigh numiter) (o_A H) d (rev tr).
+Proof. exact dmrg1_lapack_to_ritz_cap. Qed.
+Print Assumptions C10_dmrg1_lapack_to_ritz_cap.
+
+(* WHOLE RUN, single-site, END TO END, repaired solver *)
+Theorem C10_dmrg1_whole_run_lapack_cap : forall (F : ofield) orth qr dnorm small deigh numiter (H : mpo (Cx F)) psi n d DsW Ds0 lam A qD ens tr,
+  dmrg_singlesite orth qr (keig_lanczos_cap F dnorm small deigh numiter) H psi n = Some (A, qD, ens, tr) ->
+  mpo_shapeb d DsW (o_A H) = true -> mps_shapeb d Ds0 (m_A (fst (orth psi))) = true ->
+  Forall right_iso (m_A (fst (orth psi))) ->
+  (2 <= length (o_A H))%nat -> bounded_below d (length (o_A H)) (o_A H) lam ->
+  mpo_herm F (o_A H) d -> small_sound F small -> (1 <= numiter)%nat ->
+  lrtr_cap_ok qr dnorm small deigh numiter (o_A H) (rev tr) ->
+  let L := length (o_A H) in
+  let E0 := denergy d L (m_A (fst (orth psi))) (o_A H) in
+  dnorm2 d L A = k1 (Cx F) /\ length ens = n /\
+  Forall (fun e => fle F lam (cre e) /\ fle F (cre e) (cre E0)) ens /\ noninc ens /\
+  (ens <> [] -> last ens (k0 (Cx F)) = denergy d L A (o_A H)).
+Proof. exact dmrg1_run_lapack_cap. Qed.
+Print Assumptions C10_dmrg1_whole_run_lapack_cap.
+
+(* two-site: per entry, trace level, whole run *)
+Theorem C10_eig2_entry_cap_from_krylov : forall (F : ofield) dnorm small deigh numiter (Hs : list (osite (Cx F))) d DsW,
+  (0 < d)%nat -> ochain_ok (repeat d (length Hs)) DsW Hs -> hd 0%nat DsW = 1%nat -> Forall (osite_struct d) Hs ->
+  mpo_herm F Hs d -> small_sound F small -> (1 <= numiter)%nat ->
+  forall (st : sw (Cx F)) i p, Z2 (Cx F) Hs d st i -> NN (Cx F) Hs d (s_A st) = k1 (Cx F) ->
+  let Am := c04_merge_site (gA st i) (gA st (S i)) in
+  keig_lanczos_cap_calls_ok F dnorm small deigh numiter (gBL st i) (gBR st (S i)) (Hm Hs i) Am ->
+  keig_ok (d * d) (gBL st i) (gBR st (S i)) (Hm Hs i) Am
+    (keig_lanczos_cap F dnorm small deigh numiter p (gBL st i) (gBR st (S i)) (Hm Hs i) Am).
+Proof. exact eig2_entry_cap_from_krylov. Qed.
+Print Assumptions C10_eig2_entry_cap_from_krylov.
+
+Theorem C10_dmrg2_lapack_to_ritz_cap : forall (F : ofield) orth qr split dnorm small deigh numiter (H : mpo (Cx F)) psi n d DsW Ds0 A qD ens tr,
+  dmrg_twosite orth qr split (keig_lanczos_cap F dnorm small deigh numiter) H psi n = Some (A, qD, ens, tr) ->
+  mpo_shapeb d DsW (o_A H) = true -> mps_shapeb d Ds0 (m_A (fst (orth psi))) = true ->
+  Forall right_iso (m_A (fst (orth psi))) -> (2 <= length (o_A H))%nat ->
+  mpo_herm F (o_A H) d -> small_sound F small -> (1 <= numiter)%nat ->
+  lrtr2_cap_ok qr split dnorm small deigh numiter (o_A H) d (rev tr) ->
+  rtr2_ok qr split (keig_lanczos_cap F dnorm small deigh numiter) (o_A H) d (rev tr).
+Proof. exact dmrg2_lapack_to_ritz_cap. Qed.
+Print Assumptions C10_dmrg2_lapack_to_ritz_cap.
+
+(* WHOLE RUN, two-site (tol_split = 0), END TO END, repaired solver *)
+Theorem C10_dmrg2_whole_run_lapack_cap : forall (F : ofield) orth qr split dnorm small deigh numiter (H : mpo (Cx F)) psi n d DsW Ds0 lam A qD ens tr,
+  dmrg_twosite orth qr split (keig_lanczos_cap F dnorm small deigh numiter) H psi n = Some (A, qD, ens, tr) ->
+  mpo_shapeb d DsW (o_A H) = true -> mps_shapeb d Ds0 (m_A (fst (orth psi))) = true ->
+  Forall right_iso (m_A (fst (orth psi))) ->
+  (2 <= length (o_A H))%nat -> bounded_below d (length (o_A H)) (o_A H) lam ->
+  mpo_herm F (o_A H) d -> small_sound F small -> (1 <= numiter)%nat ->
+  lrtr2_cap_ok qr split dnorm small deigh numiter (o_A H) d (rev tr) ->
+  let L := length (o_A H) in
+  let E0 := denergy d L (m_A (fst (orth psi))) (o_A H) in
+  dnorm2 d L A = k1 (Cx F) /\ length ens = n /\
+  Forall (fun e => fle F lam (cre e) /\ fle F (cre e) (cre E0)) ens /\ noninc ens /\
+  (ens <> [] -> last ens (k0 (Cx F)) = denergy d L A (o_A H)).
+Proof. exact dmrg2_run_lapack_cap. Qed.
+Print Assumptions C10_dmrg2_whole_run_lapack_cap.
+
+(* what the capped trace contracts say, entry by entry *)
+Theorem C10_lrtr_cap_ok_spec : forall (F : ofield) qr dnorm small deigh numiter (Hs : list (osite (Cx F))) t rest,
+  lrtr_cap_ok qr dnorm small deigh numiter Hs (t :: rest) <->
+  (match c_kind (t_call t), t_envs t, t_ten t, t_qs t with
+   | EIG, [BL; BR], [A], _ => keig_lanczos_cap_calls_ok F dnorm small deigh numiter BL BR (nth (c_site (t_call t)) Hs []) A
+   | QR, _, [[M]], [q0; q1] => qr_ok M (qr (length rest) M q0 q1)
+   | _, _, _, _ => True
+   end) /\ lrtr_cap_ok qr dnorm small deigh numiter Hs rest.
+Proof. intros. reflexivity. Qed.
+Print Assumptions C10_lrtr_cap_ok_spec.
+Theorem C10_lrtr2_cap_ok_spec : forall (F : ofield) qr split dnorm small deigh numiter (Hs : list (osite (Cx F))) d t rest,
+  lrtr2_cap_ok qr split dnorm small deigh numiter Hs d (t :: rest) <->
+  (match c_kind (t_call t), t_envs t, t_ten t, t_qs t with
+   | EIG2, [BL; BR], [Am], _ => keig_lanczos_cap_calls_ok F dnorm small deigh numiter BL BR (Hm Hs (c_site (t_call t))) Am
+   | SPLITL, _, [Am], [q0; q1; q2; q3] => split_ok d true Am (split (length rest) Am q0 q1 q2 q3 true)
+   | SPLITR, _, [Am], [q0; q1; q2; q3] => split_ok d false Am (split (length rest) Am q0 q1 q2 q3 false)
+   | QR, _, [[M]], [q0; q1] => qr_ok M (qr (length rest) M q0 q1)
+   | _, _, _, _ => True
+   end) /\ lrtr2_cap_ok qr split dnorm small deigh numiter Hs d rest.
+Proof. intros. reflexivity. Qed.
+Print Assumptions C10_lrtr2_cap_ok_spec.
+
+(* ---- non-vacuity with a cap that BITES (Proofs/LinkCapExamples.v), numiter = 25 = the default numiter_lanczos of pytenet ----
+   (1) one call: the one-site problem of C10_keig_from_krylov_nonvacuous (H = diag(1, -1), start tensor (3, 4), size 2): the
+       capped count is min(25, 2) = 2; every hypothesis of C10_keig_cap_from_krylov holds; the model returns the Ritz value -1
+       and a unit vector with <A'|H A'> = -1. *)
+Example C10_keig_cap_from_krylov_nonvacuous :
+  Nat.min 25 (site_size lk_A) = 2%nat /\
+  keig_ok 2 lk_E lk_E lk_W lk_A (keig_lanczos_cap QcF dnorm_ex ex_small lk_deigh 25 0 lk_E lk_E lk_W lk_A) /\
+  (let r := keig_lanczos_cap QcF dnorm_ex ex_small lk_deigh 25 0 lk_E lk_E lk_W lk_A in
+   keqb CQ (fst r) (qq (-1) 1, qq 0 1) && keqb CQ (site_dot (snd r) (snd r)) (k1 CQ)
+   && keqb CQ (site_dot (snd r) (apply_local_hamiltonian lk_E lk_E lk_W (snd r))) (qq (-1) 1, qq 0 1) && Nat.eqb (length (snd r)) 2) = true.
+Proof. split; [reflexivity|]. split; [exact lk_keig_cap_ok|vm_compute; reflexivity]. Qed.
+
+(* (2) whole runs on two spins (L = 2, d = 2, bonds 1-1-1, H = Z (x) Z, psi = (3/5, 4/5) (x) (1, 0), two sweeps), repaired solver
+       with numiter = 25: EVERY eigensolver entry of the trace has 1 <= Astart.size < 25 (sizes 2 single-site, 4 two-site:
+       [cap_bites_everywhere]); the first single-site call runs exactly min(25, 2) = 2 Lanczos iterations without breakdown.  The
+       runs succeed; every hypothesis except the semantic one on H (H >= lam) holds by evaluation (LAPACK-level contracts of the
+       recorded calls by the boolean checkers ldmrg1_cap_okb / ldmrg2_cap_okb, sound by ldmrg1_cap_okb_ok / ldmrg2_cap_okb_ok); the
+       conclusions are non-trivial: energies -1 (ground energy) below E0 = -7/25, the state changes. *)
+Example C10_dmrg1_whole_run_lapack_cap_nonvacuous :
+  match dmrg_singlesite ex_orth ex_qr c2_keig c2H c2Psi 2 with
+  | Some (A, qD, ens, tr) =>
+      mpo_shapeb 2 [1; 1; 1]%nat (o_A c2H) && mps_shapeb 2 [1; 1; 1]%nat (m_A (fst (ex_orth c2Psi)))
+      && forallb right_isob (m_A (fst (ex_orth c2Psi))) && Nat.leb 2 (length (o_A c2H)) && mpo_hermb (o_A c2H) 2
+      && ldmrg1_cap_okb dnorm_ex ex_small c2_deigh 25 ex_qr (o_A c2H) (rev tr)
+      && cap_bites_everywhere 25 tr
+      && Nat.eqb (length tr) 14 && Nat.eqb (length ens) 2
+      && Nat.eqb (length (filter (fun t => match c_kind (t_call t) with EIG => true | _ => false end) tr)) 4
+      && keqb CQ (dnorm2 2 2 A) (k1 CQ) && keqb CQ (last ens (k0 CQ)) (denergy 2 2 A (o_A c2H))
+      && keqb CQ (last ens (k0 CQ)) (qq (-1) 1, qq 0 1)
+      && keqb CQ (denergy 2 2 (m_A (fst (ex_orth c2Psi))) (o_A c2H)) (qq (-7) 25, qq 0 1)
+      && negb (list_eqb (fun a b => list_eqb mxeqb a b) A (m_A c2Psi))
+  | None => false
+  end = true.
+Proof. vm_compute. reflexivity. Qed.
+Theorem C10_dmrg1_whole_run_lapack_cap_example : forall lam A qD ens tr,
+  dmrg_singlesite ex_orth ex_qr c2_keig c2H c2Psi 2 = Some (A, qD, ens, tr) ->
+  bounded_below 2 (length (o_A c2H)) (o_A c2H) lam ->
+  let L := length (o_A c2H) in
+  let E0 := denergy 2 L (m_A (fst (ex_orth c2Psi))) (o_A c2H) in
+  dnorm2 2 L A = k1 CQ /\ length ens = 2%nat /\
+  Forall (fun e => fle QcF lam (cre e) /\ fle QcF (cre e) (cre E0)) ens /\ noninc ens /\
+  (ens <> [] -> last ens (k0 CQ) = denergy 2 L A (o_A c2H)).
+Proof. exact dmrg1_run_lapack_cap_example. Qed.
+Print Assumptions C10_dmrg1_whole_run_lapack_cap_example.
+
+Example C10_dmrg2_whole_run_lapack_cap_nonvacuous :
+  match dmrg_twosite ex_orth ex_qr ex3_split c2_keig c2H c2Psi 2 with
+  | Some (A, qD, ens, tr) =>
+      mpo_shapeb 2 [1; 1; 1]%nat (o_A c2H) && mps_shapeb 2 [1; 1; 1]%nat (m_A (fst (ex_orth c2Psi)))
+      && forallb right_isob (m_A (fst (ex_orth c2Psi))) && Nat.leb 2 (length (o_A c2H)) && mpo_hermb (o_A c2H) 2
+      && ldmrg2_cap_okb dnorm_ex ex_small c2_deigh 25 ex_qr ex3_split (o_A c2H) 2 (rev tr)
+      && cap_bites_everywhere 25 tr
+      && Nat.eqb (length tr) 8 && Nat.eqb (length ens) 2
+      && Nat.eqb (length (filter (fun t => match c_kind (t_call t) with EIG2 => true | _ => false end) tr)) 2
+      && keqb CQ (dnorm2 2 2 A) (k1 CQ) && keqb CQ (last ens (k0 CQ)) (denergy 2 2 A (o_A c2H))
+      && keqb CQ (last ens (k0 CQ)) (qq (-1) 1, qq 0 1)
+      && negb (list_eqb (fun a b => list_eqb mxeqb a b) A (m_A c2Psi))
+  | None => false
+  end = true.
+Proof. vm_compute. reflexivity. Qed.
+Theorem C10_dmrg2_whole_run_lapack_cap_example : forall lam A qD ens tr,
+  dmrg_twosite ex_orth ex_qr ex3_split c2_keig c2H c2Psi 2 = Some (A, qD, ens, tr) ->
+  bounded_below 2 (length (o_A c2H)) (o_A c2H) lam ->
+  let L := length (o_A c2H) in
+  let E0 := denergy 2 L (m_A (fst (ex_orth c2Psi))) (o_A c2H) in
+  dnorm2 2 L A = k1 CQ /\ length ens = 2%nat /\
+  Forall (fun e => fle QcF lam (cre e) /\ fle QcF (cre e) (cre E0)) ens /\ noninc ens /\
+  (ens <> [] -> last ens (k0 CQ) = denergy 2 L A (o_A c2H)).
+Proof. exact dmrg2_run_lapack_cap_example. Qed.
+Print Assumptions C10_dmrg2_whole_run_lapack_cap_example.
